@@ -37,8 +37,27 @@ impl URL {
     }
 
     /// true if the given url path can be appended to the served directory without leaving it:
-    /// it starts with a slash and contains no parent directory reference
+    /// it starts with a slash and none of its segments is a parent directory reference
+    /// (two dots inside a name, like `a..b`, are fine)
     pub fn is_path_inside_root(path: &str) -> bool {
-        path.starts_with("/") && !path.contains("..")
+        if !path.starts_with("/") {
+            return false
+        }
+
+        let characters: Vec<char> = path.chars().collect();
+        let length = characters.len();
+
+        let mut index = 0;
+        while index + 1 < length {
+            let is_two_dots = characters[index] == '.' && characters[index + 1] == '.';
+            let is_segment_start = index == 0 || characters[index - 1] == '/' || characters[index - 1] == '\\';
+            let is_segment_end = index + 2 == length || characters[index + 2] == '/' || characters[index + 2] == '\\';
+            if is_two_dots && is_segment_start && is_segment_end {
+                return false
+            }
+            index = index + 1;
+        }
+
+        true
     }
 }
